@@ -100,7 +100,12 @@ func (e *env) judgeOverlap(path, label string, msgs []*ovMsg, raw []byte, round 
 		wit["response"] = resp.String()
 	}
 
-	e.violation(keyFor(path, m.exp, ps), "overlap burst: "+ps[0].what, wit)
+	key := keyFor(path, m.exp, ps)
+	if !foreign {
+		key = keyOf(path, m.exp, ps, m.wire, raw, wit)
+	}
+
+	e.violation(key, "overlap burst: "+ps[0].what, wit)
 }
 
 func countMust(msgs []*ovMsg) (n int) {
